@@ -35,7 +35,7 @@ RULE = {
 }
 FAULT_KINDS = {
     "C13": ["device_clock_step", "device_skew"],
-    "C14": ["server_clock_step", "device_clock_step", "net_delay", "net_dup", "net_drop", "net_reorder",
+    "C14": ["server_clock_step", "device_clock_step", "device_skew", "net_delay", "net_dup", "net_drop", "net_reorder",
             "attack_replay", "attack_neighbour", "attack_corrupt", "attack_wrong_length", "server_restart"],
     "C15": ["server_restart", "corrupt_source"],
 }
@@ -391,6 +391,8 @@ class _World:
 
     def _make_device(self, i, d):
         clock = _Clock(self, d["skew"], self.cfg.get("float_clock", False))
+        if d["skew"]:
+            self.ctx.fault("device_skew")
         dev = {"cfg": d, "clock": clock, "totp": None, "idx": i}
         self._provision(dev, d["form"], d["deco"], d["factory"], check=True)
         return dev
